@@ -455,9 +455,35 @@ Definition rgb2hex_name (tbl : list (str * (Z * Z * Z))) (name : str) : option s
 Definition is_space (c : N) : bool := (c =? 32)%N || ((9 <=? c)%N && (c <=? 13)%N) || ((28 <=? c)%N && (c <=? 31)%N).
 Fixpoint lstrip (s : str) : str := match s with c :: r => if is_space c then lstrip r else s | [] => [] end.
 Definition strip (s : str) : str := rev (lstrip (rev (lstrip s))).
-Definition hexa_color_str (tbl : list (str * (Z * Z * Z))) (color : str) : option str :=
-  let c := strip color in
-  match c with
-  | [] => Some (c_hash :: [48;48;48;48;48;48]%N)
-  | x :: _ => if (x =? c_hash)%N then Some c else rgb2hex_name tbl c
+(* hexa_color(color): every input form.  Result: None = raises; Some None = returns None; Some (Some s) = returns s.
+   A string that starts with '#' is returned as it is, whatever follows (pinned by tests/style/test_style_property.py with "#f00"). *)
+Inductive hinput := HNone | HTuple (channels : list Z) | HStr (s : str) | HOther.   (* HOther: int, list, dict, bytes ... -> TypeError *)
+Definition s_black : str := c_hash :: [48;48;48;48;48;48]%N.
+Definition hexa_color (tbl : list (str * (Z * Z * Z))) (i : hinput) : option (option str) :=
+  match i with
+  | HNone => Some None
+  | HTuple [r; g; b] => match rgb2hex r g b with Some h => Some (Some h) | None => None end
+  | HTuple _ => None
+  | HOther => None
+  | HStr color =>
+    let c := strip color in
+    match c with
+    | [] => Some (Some s_black)
+    | x :: _ => if (x =? c_hash)%N then Some (Some c)
+                else match rgb2hex_name tbl c with Some h => Some (Some h) | None => None end
+    end
+  end.
+(* the colour an input denotes, when it denotes one *)
+Definition hexa_denotes (tbl : list (str * (Z * Z * Z))) (i : hinput) : option (N * N * N) :=
+  match i with
+  | HTuple [r; g; b] => if ((0 <=? r) && (r <=? 255) && (0 <=? g) && (g <=? 255) && (0 <=? b) && (b <=? 255))%Z then Some (Z.to_N r, Z.to_N g, Z.to_N b) else None
+  | HStr color =>
+    match strip color with
+    | [] => Some (0, 0, 0)%N
+    | x :: r => if (x =? c_hash)%N then hex2rgb (x :: r)
+                else match lookup (map ascii_lower (x :: r)) tbl with
+                     | Some (r', g, b) => if ((0 <=? r') && (r' <=? 255) && (0 <=? g) && (g <=? 255) && (0 <=? b) && (b <=? 255))%Z then Some (Z.to_N r', Z.to_N g, Z.to_N b) else None
+                     | None => None end
+    end
+  | _ => None
   end.
